@@ -515,7 +515,7 @@ theorem windows_eq_read (a : Ascii) (sq : Sq) (R : Ready a sq) (hs : sq.seq = #[
     (readWindowsM req ((read a sq).2.1.seq.size + 2) 0 a sq).2.2.1.seq = #[] ∧
     (readWindowsM req ((read a sq).2.1.seq.size + 2) 0 a sq).2.2.1.L = (read a sq).2.1.L ∧
     (readWindowsM req ((read a sq).2.1.seq.size + 2) 0 a sq).2.2.1.start = 0 ∧
-    idOf (readWindowsM req ((read a sq).2.1.seq.size + 2) 0 a sq).2.2.1 = idOf (read a sq).2.1 ∧
+    hdrOf (readWindowsM req ((read a sq).2.1.seq.size + 2) 0 a sq).2.2.1 = hdrOf (read a sq).2.1 ∧
     Cur (readWindowsM req ((read a sq).2.1.seq.size + 2) 0 a sq).2.1 ∧
     fileFrom (readWindowsM req ((read a sq).2.1.seq.size + 2) 0 a sq).2.1 = fileFrom (read a sq).1 ∧
     stat (readWindowsM req ((read a sq).2.1.seq.size + 2) 0 a sq).2.1 = stat a := by
@@ -563,13 +563,13 @@ theorem windows_eq_read (a : Ascii) (sq : Sq) (R : Ready a sq) (hs : sq.seq = #[
   have hseqR : (bodyL a.inmap (mapFor a.inmap sq) a.file.size hsq l0).2.1.seq = resOf a.inmap (mapFor a.inmap sq) (l0.takeWhile (isData a.inmap)) ∧
       (bodyL a.inmap (mapFor a.inmap sq) a.file.size hsq l0).2.1.L = ((resOf a.inmap (mapFor a.inmap sq) (l0.takeWhile (isData a.inmap))).size : Int) ∧
       (bodyL a.inmap (mapFor a.inmap sq) a.file.size hsq l0).2.2 = l0.dropWhile (isData a.inmap) ∧
-      idOf (bodyL a.inmap (mapFor a.inmap sq) a.file.size hsq l0).2.1 = idOf hsq := by
+      hdrOf (bodyL a.inmap (mapFor a.inmap sq) a.file.size hsq l0).2.1 = hdrOf hsq := by
     unfold bodyL
     cases hc : l0.dropWhile (isData a.inmap) with
-    | nil => simp [Sq.setWhole, stored, u3, hs, Sq.n, idOf]
+    | nil => simp [Sq.setWhole, stored, u3, hs, Sq.n, hdrOf]
     | cons c t' =>
       have := hrest c t' hc
-      simp [this, Sq.setWhole, stored, u3, hs, Sq.n, idOf]
+      simp [this, Sq.setWhole, stored, u3, hs, Sq.n, hdrOf]
   obtain ⟨g1, g2, g3, g4⟩ := hseqR
   rw [g1, g2, g3, g4]
   generalize hD : l0.takeWhile (isData a.inmap) = D at *
@@ -610,7 +610,7 @@ theorem windows_eq_read (a : Ascii) (sq : Sq) (R : Ready a sq) (hs : sq.seq = #[
   have hn0 : nresOf a.inmap ([] : List UInt8) = 0 := rfl
   rw [hn0] at s1 s2
   have hRs : (resOf a.inmap (mapFor a.inmap sq) D).size = nresOf a.inmap D := resOf_size _ _ _
-  have hid1 : idOf ({ sq1 with start := 1, C := 0, L := -1, source := cstr sq1.name } : Sq) = idOf sq1 := rfl
+  have hid1 : hdrOf ({ sq1 with start := 1, C := 0, L := -1, source := cstr sq1.name } : Sq) = hdrOf sq1 := rfl
   have hstat1 : stat ({ a1 with L := 0 } : Ascii) = stat a := c3
   rw [show (resOf a.inmap (mapFor a.inmap sq) D).size + 2 = ((resOf a.inmap (mapFor a.inmap sq) D).size + 1) + 1 from rfl,
     readWindowsM_succ, specWindows_succ]
@@ -620,14 +620,14 @@ theorem windows_eq_read (a : Ascii) (sq : Sq) (R : Ready a sq) (hs : sq.seq = #[
     have hd0 : nresOf a.inmap D = 0 := by omega
     have hle : (resOf a.inmap (mapFor a.inmap sq) D).size ≤ 0 := by omega
     simp only [hb2, Bool.false_eq_true, if_false, hle, if_true, List.map_nil]
-    exact ⟨trivial, k1, k2, by rw [k3]; omega, k4, (idOf_of_hdrOf k5).trans hid1, k6, k7, k8.trans hstat1⟩
+    exact ⟨trivial, k1, k2, by rw [k3]; omega, k4, k5.trans hid1, k6, k7, k8.trans hstat1⟩
   · obtain ⟨k1, k2, k3, k4, k5, D1', D2', I', e1, e2⟩ := s1 (by omega)
     have hb2 : ((readWindow a sq (req 0).1 (req 0).2).2.2 == Status.ok) = true := by rw [k1]; decide
     have hle : ¬ (resOf a.inmap (mapFor a.inmap sq) D).size ≤ 0 := by omega
     simp only [hb2, if_true, hle, if_false, List.map_cons]
     obtain ⟨j1, j2, j3, j4, j5, j6, j7, j8, j9⟩ := windows_rest req hreq a.inmap (mapFor a.inmap sq) D rest0
       ((resOf a.inmap (mapFor a.inmap sq) D).size + 1) 1 _ _ D1' D2' I' (by omega)
-    refine ⟨?_, j2, j3, j4, j5, ((idOf_of_hdrOf j6).trans (idOf_of_hdrOf k3)).trans hid1, j7, j8, (j9.trans k5).trans hstat1⟩
+    refine ⟨?_, j2, j3, j4, j5, (j6.trans k3).trans hid1, j7, j8, (j9.trans k5).trans hstat1⟩
     rw [j1, k2, e1, k4]
     simp [hRs]
 
@@ -650,5 +650,26 @@ theorem windows_coords (a : Ascii) (sq : Sq) (R : Ready a sq) (hs : sq.seq = #[]
       x.end_ ≤ ((read a sq).2.1.seq.size : Int) ∧ 0 ≤ x.C := by
   rw [(windows_eq_read a sq R hs hst hok req hreq).1]
   exact specWindows_coords _ req _ 0 0 0 (Nat.le_refl _)
+
+
+/-- **the window loop composes over records**: after the `eslEOD` that ends a record's series, handle and `ESL_SQ` are ready for the
+    next record exactly as after `sqascii_Read` + `esl_sq_Reuse` (cursor on the same byte, `start = 0`, no residues, allocations at
+    least as large), so `windows_eq_read` applies again — record after record through the file -/
+theorem windows_then_ready (a : Ascii) (sq : Sq) (R : Ready a sq) (hs : sq.seq = #[]) (hst : sq.start = 0)
+    (hok : (read a sq).2.2 = .ok) (req : Nat → Int × Int) (hreq : ∀ k, 0 ≤ (req k).1 ∧ 1 ≤ (req k).2) :
+    Ready (readWindowsM req ((read a sq).2.1.seq.size + 2) 0 a sq).2.1 (readWindowsM req ((read a sq).2.1.seq.size + 2) 0 a sq).2.2.1 ∧
+    (readWindowsM req ((read a sq).2.1.seq.size + 2) 0 a sq).2.2.1.seq = #[] ∧
+    (readWindowsM req ((read a sq).2.1.seq.size + 2) 0 a sq).2.2.1.start = 0 ∧
+    fileFrom (readWindowsM req ((read a sq).2.1.seq.size + 2) 0 a sq).2.1 = fileFrom (read a sq).1 := by
+  obtain ⟨_, _, w3, _, w5, w6, w7, w8, w9⟩ := windows_eq_read a sq R hs hst hok req hreq
+  obtain ⟨q1, _, _, _⟩ := read_spec a sq R
+  rw [q1] at hok
+  obtain ⟨k1, k2, k3, k4⟩ := ParseFasta.recL_keeps a.inmap a.file.size sq (fileFrom a) hok
+  obtain ⟨_, q2, _, _⟩ := read_spec a sq R
+  obtain ⟨m1, _, _, _⟩ := q2 hok
+  rw [← m1] at k1 k2 k3 k4
+  simp only [hdrOf, Prod.mk.injEq] at w6
+  obtain ⟨e1, e2, _, _, _, e6, e7, _, _, _⟩ := w6
+  refine ⟨R.next w7 w9 (e1.trans k1) (e2.trans k2) (by rw [e6]; exact k3) (by rw [e7]; exact k4), w3, w5, w8⟩
 
 end EaselModel.Sqio.WindowSeries
